@@ -1795,15 +1795,21 @@ class HTTP11ClientProtocol(Protocol):
         """
         if self._state == "CONNECTION_LOST":
             return succeed(None)
-        if self._state == "TRANSMITTING":
-            # The request is still being written, so its Deferred is not yet
-            # chained to the parser's (see cbRequestWritten).  Chain it now so
-            # that the failure reaches it, and tell the request that it does
-            # not need to continue transmitting itself.
-            self._responseDeferred.chainDeferred(self._finishedRequest)
-            self._currentRequest.stopWriting()
+        transmitting = self._state == "TRANSMITTING"
+        responseDeferred = self._responseDeferred
+        finishedRequest = self._finishedRequest
         self.transport.loseConnection()
         self._state = "ABORTING"
         d = Deferred()
         self._abortDeferreds.append(d)
+        if transmitting:
+            # The request is still being written, so its Deferred is not yet
+            # chained to the parser's (see cbRequestWritten).  Tell the
+            # request that it does not need to continue transmitting itself
+            # and chain the Deferred now so that the outcome reaches it.  This
+            # comes last: if the response head has arrived already, chaining
+            # runs the application's callbacks, which must find this protocol
+            # aborting (they may even get the connection lost under us).
+            self._currentRequest.stopWriting()
+            responseDeferred.chainDeferred(finishedRequest)
         return d
